@@ -76,7 +76,7 @@ func one(g *hx.Gen) {
 	trunk := &regnet.Branch{}
 	n := 6 + r.Intn(9)
 	for i := 0; i < n; i++ {
-		b := h.HonestBlock(trunk, 1)
+		b := h.HonestBlock(trunk, 0)
 		trunk = regnet.Extend(trunk, b)
 		h.Deliver(b)
 	}
@@ -101,7 +101,7 @@ func one(g *hx.Gen) {
 		br := regnet.Fork(trunk, tipH-depth)
 		var blks []*types.Block
 		for k := 0; k <= depth; k++ {
-			b := h.HonestBlock(br, 1)
+			b := h.HonestBlock(br, 0)
 			br = regnet.Extend(br, b)
 			blks = append(blks, b)
 		}
@@ -115,7 +115,7 @@ func one(g *hx.Gen) {
 		}
 		// the node moves forward again
 		for k := r.Intn(3); k > 0; k-- {
-			b := h.HonestBlock(trunk, 1)
+			b := h.HonestBlock(trunk, 0)
 			trunk = regnet.Extend(trunk, b)
 			h.Deliver(b)
 		}
